@@ -11,7 +11,7 @@ import unittest
 import testtools
 from testtools import PlaceHolder
 from testtools import run as tt_run
-from testtools.testsuite import filter_by_ids, iterate_tests, sorted_tests
+from testtools.testsuite import FixtureSuite, filter_by_ids, iterate_tests, sorted_tests
 
 from vt.explore.chooser import obs_hash
 from vt.runner import ShardResult
@@ -21,12 +21,12 @@ PROPERTY = "C19"
 MANIFEST_INFO = {
     "engine": "E",
     "design_ref": "DESIGN.md section 5, C19",
-    "technique": "bounded-exhaustive enumeration of all suite trees up to a node bound (5 suite kinds x 4 leaf labels, duplicates included) x all 16 id subsets, checked against a list-of-leaves reference model; testtools.run --list/--load-list driven in-process on a synthetic module for every small tree",
-    "level_text": "Every ordered tree with at most 5 (quick) / 6 (thorough) nodes over plain TestSuite, a custom subclass, one with sort_tests, one with an in-place filter_by_ids and one whose filter_by_ids returns a new suite (each possibly empty), with PlaceHolder and real TestCase leaves over ids {a,b,c} (duplicates occur), is built afresh and passed to iterate_tests, to filter_by_ids for every subset of {a,b,c,z} (order, identity and the chain of enclosing suite objects of every surviving leaf are compared), and to sorted_tests (ValueError iff duplicate ids, otherwise the documented order). For every tree of at most 4 nodes, testtools.run --list and --load-list (every subset, via a scratch file) are run in-process.",
+    "technique": "bounded-exhaustive enumeration of all suite trees up to a node bound (6 suite kinds incl. testtools' FixtureSuite x 4 leaf labels, duplicates included) x all 16 id subsets, checked against a list-of-leaves reference model; testtools.run --list/--load-list driven in-process on a synthetic module for every small tree",
+    "level_text": "Every ordered tree with at most 5 (quick) / 6 (thorough) nodes over plain TestSuite, a custom subclass, one with sort_tests, one with an in-place filter_by_ids, one whose filter_by_ids returns a new suite and testtools' own FixtureSuite (each possibly empty), with PlaceHolder and real TestCase leaves over ids {a,b,c} (duplicates occur), is built afresh and passed to iterate_tests, to filter_by_ids for every subset of {a,b,c,z} (order, identity and the chain of enclosing suite objects of every surviving leaf are compared), and to sorted_tests (ValueError iff duplicate ids, otherwise the documented order). For every tree of at most 4 (quick) / 5 (thorough) nodes the two compositions sort-then-filter (what testtools.run discover --load-list does) and filter-then-sort are checked for every subset. For every tree of at most 4 nodes, testtools.run --list and --load-list (every subset, via a scratch file) are run in-process.",
     "level_note": "The reference model is a recursive list of leaves; custom filter_by_ids is a correct in-place implementation; the position of empty custom suites in sorted_tests output is not constrained (they hold no tests).",
 }
 
-SUITE_KINDS = ("plain", "custom", "sorting", "filtering", "copying")
+SUITE_KINDS = ("plain", "custom", "sorting", "filtering", "copying", "fixture")
 LEAF_LABELS = (("ph", "a"), ("ph", "b"), ("ph", "c"), ("tc", "a"))
 SUBSETS = [frozenset(s) for n in range(5) for s in itertools.combinations("abcz", n)]
 
@@ -62,6 +62,20 @@ class CopyingSuite(unittest.TestSuite):
 RAN = []
 
 
+class _NullFixture:
+    def setUp(self):
+        pass
+
+    def cleanUp(self):
+        pass
+
+
+def _fixture_suite():
+    """testtools' own self-sorting custom suite."""
+    return FixtureSuite(_NullFixture(), [])
+
+
+
 class LoggingPlaceHolder(PlaceHolder):
     def run(self, result=None):
         RAN.append(self.id())
@@ -78,7 +92,7 @@ class _TC(testtools.TestCase):
         return self._vt_id
 
 
-SUITE_CLASSES = {"plain": unittest.TestSuite, "custom": CustomSuite, "sorting": SortingSuite, "filtering": FilteringSuite, "copying": CopyingSuite}
+SUITE_CLASSES = {"plain": unittest.TestSuite, "custom": CustomSuite, "sorting": SortingSuite, "filtering": FilteringSuite, "copying": CopyingSuite, "fixture": _fixture_suite}
 
 
 def gen_shapes(n):
@@ -159,7 +173,7 @@ def model_sorted_leaves(tree):
             return out
         ids = leaf_ids(node)
         key = ids[0] if ids else None
-        if node[1] == "sorting":
+        if node[1] in ("sorting", "fixture"):
             inner = flatten(node, unpack_outer=True)
             inner.sort(key=lambda kv: (kv[0] is not None, kv[0] or ""))
             ids = [i for _, l in inner for i in l]
@@ -179,7 +193,7 @@ def leaf_ids(tree):
     return out
 
 
-def check_tree(tree, res, with_run):
+def check_tree(tree, res, with_run, with_comp=True):
     problems = []
     # iterate_tests
     obj, leaves = build(tree)
@@ -232,9 +246,51 @@ def check_tree(tree, res, with_run):
                 problems.append(("sort-order", "sorted_tests gave %r, documented order is %r" % (outcome[1], want)))
             if sorted(outcome[2]) != sorted(id(l[0]) for l in leaves):
                 problems.append(("sort-set", "sorted_tests changed the set of test objects"))
+    # compositions (testtools.run discover --load-list sorts first and filters afterwards)
+    if with_comp and not dup and outcome[0] == "ok":
+        want_sorted = model_sorted_leaves(tree)
+        for S in SUBSETS:
+            obj, leaves = build(tree)
+            try:
+                out = filter_by_ids(sorted_tests(obj), S)
+                have = [t.id() for t in iterate_tests(out)]
+            except Exception as e:
+                problems.append(("sort-then-filter", "filter_by_ids(sorted_tests(suite), %r) raised %s: %s" % (sorted(S), type(e).__name__, e)))
+                continue
+            res.evaluations += 1
+            if have != [i for i in want_sorted if i in S]:
+                problems.append(("sort-then-filter", "filter_by_ids(sorted_tests(suite), %r) left %r, expected %r" % (sorted(S), have, [i for i in want_sorted if i in S])))
+    for S in SUBSETS if with_comp else ():
+        ftree = model_filter(tree, S)
+        fids = leaf_ids(ftree)
+        obj, leaves = build(tree)
+        try:
+            out = sorted_tests(filter_by_ids(obj, S))
+            have = ("ok", [t.id() for t in iterate_tests(out)])
+        except ValueError:
+            have = ("ValueError",)
+        except Exception as e:
+            have = ("raised", type(e).__name__, str(e))
+        res.evaluations += 1
+        if len(set(fids)) != len(fids):
+            want = ("ValueError",)
+        else:
+            want = ("ok", model_sorted_leaves(ftree))
+        if have != want:
+            if have[0] == "raised" and "TypeError" in have[1] and _has_empty_custom(ftree):
+                clause = "sort-raised"
+            else:
+                clause = "filter-then-sort"
+            problems.append((clause, "sorted_tests(filter_by_ids(suite, %r)) gave %r, expected %r" % (sorted(S), have, want)))
     if with_run and tree[0] == "S":
         problems.extend(check_run(tree, res))
     return problems
+
+
+def model_filter(tree, S):
+    if tree[0] == "L":
+        return tree if tree[2] in S else ("S", "plain", ())
+    return ("S", tree[1], tuple(model_filter(c, S) for c in tree[2]))
 
 
 _MOD = types.ModuleType("vt_synth_c19")
@@ -309,18 +365,19 @@ def run_shard(shard, tier, seed):
     res = ShardResult()
     max_nodes = 5 if tier == "quick" else 6
     run_nodes = 3 if tier == "quick" else 4
+    comp_nodes = 4 if tier == "quick" else 5
     i = -1
     for n, tree in all_trees(max_nodes):
         i += 1
         if i % NSHARDS != shard:
             continue
-        problems = check_tree(tree, res, with_run=(n <= run_nodes))
+        problems = check_tree(tree, res, with_run=(n <= run_nodes), with_comp=(n <= comp_nodes))
         res.states += 1
         res.transitions += n
         res.traces_validated += 1
         if n >= 2:
             res.distinct.add(obs_hash(tree))
-        if res.states % 4001 == 0:
+        if res.states % 397 == 0:
             res.add_sample({"tree": repr(tree)})
         for clause, msg in problems:
             fp = "C19/%s" % clause
@@ -356,8 +413,8 @@ def _dec(t):
 def meta(tier):
     return {
         "technique": MANIFEST_INFO["technique"],
-        "rule": "every labelled ordered tree with <= N nodes (a childless node is a leaf or an empty suite of each kind); per tree: iterate_tests, filter_by_ids for 16 subsets, sorted_tests, and for small trees testtools.run --list and --load-list for 16 subsets; states = trees, evaluations = API calls checked; non-trivial = trees with >= 2 nodes",
-        "bounds": {"max_nodes": 5 if tier == "quick" else 6, "run_max_nodes": 3 if tier == "quick" else 4, "suite_kinds": list(SUITE_KINDS), "leaf_labels": [list(l) for l in LEAF_LABELS], "id_subsets": 16},
+        "rule": "every labelled ordered tree with <= N nodes (a childless node is a leaf or an empty suite of each kind); per tree: iterate_tests, filter_by_ids for 16 subsets, sorted_tests, for trees up to composition_max_nodes also filter_by_ids(sorted_tests(t), S) and sorted_tests(filter_by_ids(t, S)) for 16 subsets, and for small trees testtools.run --list and --load-list for 16 subsets; states = trees, evaluations = API calls checked; non-trivial = trees with >= 2 nodes",
+        "bounds": {"max_nodes": 5 if tier == "quick" else 6, "run_max_nodes": 3 if tier == "quick" else 4, "composition_max_nodes": 4 if tier == "quick" else 5, "suite_kinds": list(SUITE_KINDS), "leaf_labels": [list(l) for l in LEAF_LABELS], "id_subsets": 16},
         "assumptions": ["custom filter_by_ids implementations are correct and filter in place", "ids are short strings"],
     }
 
